@@ -62,7 +62,7 @@ def gen_case(rng, i):
     elif kind == "member":
         c["behs"] = boundary_behaviours(rng, L, vs)[:7]
     elif kind == "empty":
-        shape = rng.choice(["feasible", "contradiction", "thin_infeasible", "thin_feasible", "cycle", "few_rows", "repeated_lhs", "late_link"])
+        shape = rng.choice(["feasible", "contradiction", "thin_infeasible", "thin_feasible", "cycle", "few_rows", "repeated_lhs", "late_link", "print_twin"])
         if shape == "contradiction":
             r = rng.choice(L)
             c["L"] = L + [({v: -a for v, a in r[0].items()}, -r[1] - rng.choice([1, 2, 3]))]
@@ -70,6 +70,14 @@ def gen_case(rng, i):
             r = rng.choice(L)
             m = rng.choice([1, 2.0**-3, 2.0**-7, 2.0**-10])
             c["L"] = L + [({v: -a for v, a in r[0].items()}, -r[1] + (m if shape == "thin_feasible" else -m))]
+        elif shape == "print_twin":
+            # two lists that PRINT alike (20.0039 prints as 20): a thin feasible one and one that is infeasible by 2^-8, asked one after the other
+            K, v0 = rng.choice([20, 12, 35]), vs[0]
+            thin = [({v0: 1}, K + 2.0**-8), ({v0: -1}, -K)]
+            none = [({v0: 1}, K), ({v0: -1}, -(K + 2.0**-8))]
+            c["L"] = thin if rng.random() < 0.5 else none
+            c["twin"] = none if c["L"] is thin else thin
+            c["keep_order"] = True
         elif shape == "late_link" and nv >= 2:
             # rows over disjoint variables first, the row that connects them last: the contradiction needs all of them
             a_, b_ = vs[0], vs[1]
@@ -118,6 +126,8 @@ def run_case(case):
         evs = [lpev.ev_contains(case["L"], b) for b in case["behs"]]
     elif case["kind"] == "empty":
         evs = [lpev.ev_empty(case["L"])]
+        if case.get("twin"):
+            evs.append(lpev.ev_empty(case["twin"]))
     else:
         evs = [lpev.ev_consistency(case["L"], case["R"], b) for b in case["behs"] if set(b) >= {v for co, _ in case["L"] + case["R"] for v in co}]
     if case.get("only_event"):
